@@ -21,12 +21,14 @@ pub struct E1Job {
     pub expect_converge: bool,
     pub with_local_ops: bool,
     pub with_restart: bool,
+    pub with_welcomes: bool,
+    pub welcome_consent: u8,
     pub max_states: usize,
 }
 
 impl E1Job {
     pub fn new(sc: Scenario) -> E1Job {
-        E1Job { sc, backend: Bk::Memory, regimes: vec![Regime::Causal, Regime::Unrestricted], members: None, expect_converge: true, with_local_ops: true, with_restart: false, max_states: 20000 }
+        E1Job { sc, backend: Bk::Memory, regimes: vec![Regime::Causal, Regime::Unrestricted], members: None, expect_converge: true, with_local_ops: true, with_restart: false, with_welcomes: false, welcome_consent: 0, max_states: 20000 }
     }
     pub fn backend(mut self, b: Bk) -> Self {
         self.backend = b;
@@ -114,7 +116,7 @@ fn run_job(job: &E1Job, check: &GraphCheck, rep: &mut Report) {
             continue;
         }
         for regime in &job.regimes {
-            let opts = ExploreOpts { regime: *regime, max_states: job.max_states, with_restart: job.with_restart, with_local_ops: job.with_local_ops, keep_key_json: false, pool_filter: None };
+            let opts = ExploreOpts { regime: *regime, max_states: job.max_states, with_restart: job.with_restart, with_local_ops: job.with_local_ops, keep_key_json: false, pool_filter: None, with_welcomes: job.with_welcomes, welcome_consent: job.welcome_consent };
             let g = explore(&w, m, &opts);
             rep.states += g.states.len() as u64;
             rep.transitions += g.transitions as u64;
